@@ -1413,8 +1413,21 @@ where
         .iter()
         .enumerate()
         .map(|(idx, x)| {
-            let username = demangle_toml_string(x["username"].to_string());
-            let password = demangle_toml_string(x["password"].to_string());
+            // the value of a TOML string, with its quotes and escapes interpreted by the parser
+            let string_field = |key: &str| {
+                x.get(key)
+                    .and_then(Item::as_str)
+                    .map(String::from)
+                    .ok_or_else(|| {
+                        serde::de::Error::custom(format!(
+                            "Client #{}: {} must be a string",
+                            idx + 1,
+                            key
+                        ))
+                    })
+            };
+            let username = string_field("username")?;
+            let password = string_field("password")?;
 
             if username.is_empty() {
                 return Err(serde::de::Error::custom(format!(
@@ -1509,8 +1522,4 @@ where
     };
 
     Ok(Some(rules::RulesEngine::from_config(rules_config)))
-}
-
-fn demangle_toml_string(x: String) -> String {
-    x.replace('"', "").trim().to_string()
 }
